@@ -15,6 +15,7 @@
 import GeoProofs.Lemmas.C12Closest
 import GeoProofs.Lemmas.C12Interior
 import GeoProofs.Lemmas.C12QScan
+import GeoProofs.Lemmas.C12QSimple
 import Mathlib.Tactic.NormNum
 
 namespace Geo.Proofs.C12
@@ -968,6 +969,43 @@ example : ∃ x w, polyScan (locate (.polygon ⟨[⟨0, 0⟩, ⟨4, 0⟩, ⟨4, 
     locate (.polygon ⟨[⟨0, 0⟩, ⟨4, 0⟩, ⟨4, 1⟩, ⟨1, 1⟩, ⟨1, 3⟩, ⟨0, 3⟩, ⟨0, 0⟩], []⟩) x = .inside :=
   interior_strict_simple _ ⟨0, 0⟩ ⟨4, 3⟩ rfl (by decide +kernel)
     ⟨⟨0, 0⟩, by simp, ⟨0, 3⟩, by simp, by norm_num⟩ (by decide +kernel) (by decide +kernel)
+
+/- Full statement: `poly.ints = [] → ringSimple poly.ext = true → getBoundingRect poly.ext = some (mn, mx) → …`
+   (a simple ring cannot lie on one horizontal or vertical line, so the two box hypotheses below follow
+   from `ringSimple`; that 1-dimensional fold-back argument is not formalised here). -/
+/-- [Tp] `interior_strict_ringSimple_partial`: a polygon without holes whose exterior ring is simple
+(`ringSimple`, GeoModel/Valid.lean: closed, ≥ 3 edges after merging repeated coordinates, edges meet
+only at shared vertices of consecutive edges) and whose bounding box has positive width and height:
+the hit abscissae are pairwise distinct, the midpoint of the first two crossings is `Inside`, and the
+model's `interior_point` is `Inside`. -/
+theorem interior_strict_ringSimple_partial (poly : Poly) (mn mx : Pt)
+    (hholes : poly.ints = [])
+    (hsimple : ringSimple poly.ext = true)
+    (hb : getBoundingRect poly.ext = some (mn, mx))
+    (hx : mn.x < mx.x) (hyy : mn.y < mx.y) :
+    ∃ x w, polyScan (locate (.polygon poly)) poly = some (x, w) ∧
+      locate (.polygon poly) x = .inside := by
+  obtain ⟨hbd, _, _, ⟨pl, hpl, hply⟩, ⟨ph, hph, hphy⟩⟩ :=
+    Geo.Proofs.C19.getBoundingRect_bounds poly.ext mn mx hb
+  have hflat : ∃ c ∈ poly.ext, ∃ c' ∈ poly.ext, c.y ≠ c'.y :=
+    ⟨pl, hpl, ph, hph, by rw [hply, hphy]; exact ne_of_lt hyy⟩
+  have hcoords : ∀ v ∈ poly.coords, v ∈ poly.ext := fun v hv => by
+    simpa [Poly.coords, hholes] using hv
+  have hextc : ∀ v ∈ poly.ext, v ∈ poly.coords := fun v hv => by
+    unfold Poly.coords; exact List.mem_append_left _ hv
+  have hy := yMid_avoids_vertices mn mx poly.coords ⟨pl, hextc _ hpl, by rw [hply]; linarith⟩
+  apply interior_strict_simple poly mn mx hholes (closed_of_simple hsimple) hflat hb
+  apply hits_nodup_of_simple poly _ _ _ hholes hsimple hy _ hx
+  intro v hv
+  have := hbd v (hcoords v hv)
+  exact ⟨this.1, this.2.1⟩
+
+/-- the L-shaped hexagon is `ringSimple` -/
+example : ∃ x w, polyScan (locate (.polygon ⟨[⟨0, 0⟩, ⟨4, 0⟩, ⟨4, 1⟩, ⟨1, 1⟩, ⟨1, 3⟩, ⟨0, 3⟩, ⟨0, 0⟩], []⟩))
+      ⟨[⟨0, 0⟩, ⟨4, 0⟩, ⟨4, 1⟩, ⟨1, 1⟩, ⟨1, 3⟩, ⟨0, 3⟩, ⟨0, 0⟩], []⟩ = some (x, w) ∧
+    locate (.polygon ⟨[⟨0, 0⟩, ⟨4, 0⟩, ⟨4, 1⟩, ⟨1, 1⟩, ⟨1, 3⟩, ⟨0, 3⟩, ⟨0, 0⟩], []⟩) x = .inside :=
+  interior_strict_ringSimple_partial _ ⟨0, 0⟩ ⟨4, 3⟩ rfl (by decide +kernel) (by decide +kernel)
+    (by norm_num) (by norm_num)
 
 /-! ### GeometryCollection: a member of the highest dimension present -/
 
